@@ -37,10 +37,11 @@ class Result:
     def tag(self, prefix):
         return [t for t in self.tags if t.startswith(prefix)]
     def summary(self, key):
+        v = None
         for t in self.tags:
             if t.startswith('summary:%s:' % key):
-                return t.split(':', 2)[2]
-        return None
+                v = t.split(':', 2)[2]
+        return v
 
 class Arr:
     """a small array in a scratch directory"""
